@@ -866,27 +866,91 @@ def r145(ctx, R):
     R.ob('R14.5', 'MICROVERSION_ENVIRON', env == 'placement.microversion',
          "environ key '<service type>.microversion'", env,
          nontrivial=False)
-    # _find_method semantics
+    # _find_method semantics: the entry registered by version_handler
+    # carries (lowest version, highest version, function) - as a tuple or as
+    # a record - and the finder returns the function of the entry whose
+    # bounds enclose the request's version
+    from psa import pathval
     fm = prog.func('placement.microversion:_find_method')
+    records = pathval.module_env(fm.module.tree).get('<records>', {})
+    dec = prog.func('placement.microversion:version_handler>decorator')
+    vh = prog.func('placement.microversion:version_handler')
+    roles = {}          # element index -> 'min' | 'max' | 'func'
+    why5 = []
+    regs = []
+    for c in own_nodes(dec.node):
+        if isinstance(c, ast.Call) and isinstance(
+                c.func, ast.Attribute) and c.func.attr == 'append' and \
+                len(c.args) == 1 and 'VERSIONED_METHODS' in src(
+                    C.inline_locals(dec, c.func.value)):
+            regs.append(c)
+    if len(regs) == 1:
+        ent = regs[0].args[0]
+        elems = None
+        if isinstance(ent, ast.Tuple):
+            elems = list(ent.elts)
+        elif isinstance(ent, ast.Call) and isinstance(
+                ent.func, ast.Name) and ent.func.id in records:
+            fl = records[ent.func.id]
+            elems = [pathval._record_field(ent, fl, nm) for nm in fl]
+        if elems and all(e is not None for e in elems):
+            ddeps = C.FlowDeps(dec)
+
+            def from_param(e, pn):
+                return pn is not None and ddeps.reaches(
+                    e, lambda x: isinstance(x, ast.Name) and x.id == pn)
+            p_min = (vh.params + [None, None])[0]
+            p_max = (vh.params + [None, None])[1]
+            for i, e in enumerate(elems):
+                if isinstance(e, ast.Name) and e.id == (dec.params + [None])[
+                        0]:
+                    roles[i] = 'func'
+                elif from_param(e, p_max) and not from_param(e, p_min):
+                    roles[i] = 'max'
+                elif from_param(e, p_min) and not from_param(e, p_max):
+                    roles[i] = 'min'
+    else:
+        why5.append('%d registrations' % len(regs))
+    inv = {v: k for k, v in roles.items()}
     cmpn = [c for c in own_nodes(fm.node) if isinstance(c, ast.Compare)
             and len(c.ops) == 2]
     okf = False
     ps = fm.params
     if len(cmpn) == 1 and len(ps) >= 3 and all(
-            isinstance(o, ast.LtE) for o in cmpn[0].ops):
+            isinstance(o, ast.LtE) for o in cmpn[0].ops) and sorted(
+                roles.values()) == ['func', 'max', 'min']:
         c0 = cmpn[0]
         iff = getattr(c0, '_parent', None)
         lp = getattr(iff, '_parent', None)
         if isinstance(iff, ast.If) and iff.test is c0 and isinstance(
-                lp, ast.For) and isinstance(lp.target, ast.Tuple) and len(
-                    lp.target.elts) == 3:
-            lo, hi, fn = [src(x) for x in lp.target.elts]
-            okf = [src(c0.left), src(c0.comparators[0]),
-                   src(c0.comparators[1])] == [lo, ps[1], hi]
+                lp, ast.For):
+            def elem(e):
+                """Index of the entry element an expression reads."""
+                if isinstance(lp.target, ast.Tuple) and isinstance(
+                        e, ast.Name):
+                    ns = [src(x) for x in lp.target.elts]
+                    return ns.index(e.id) if e.id in ns else None
+                if isinstance(lp.target, ast.Name) and isinstance(
+                        e, ast.Attribute) and isinstance(
+                            e.value, ast.Name) and e.value.id == \
+                        lp.target.id:
+                    for fl in records.values():
+                        if e.attr in fl:
+                            return fl.index(e.attr)
+                if isinstance(lp.target, ast.Name) and isinstance(
+                        e, ast.Subscript) and isinstance(
+                            e.value, ast.Name) and e.value.id == \
+                        lp.target.id and isinstance(
+                            e.slice, ast.Constant):
+                    return e.slice.value
+                return None
+            okf = elem(c0.left) == inv['min'] and src(
+                c0.comparators[0]) == ps[1] and elem(
+                    c0.comparators[1]) == inv['max']
             # the matching entry's function is what is returned
             okf = okf and len(iff.body) == 1 and isinstance(
-                iff.body[0], ast.Return) and src(iff.body[0].value) == fn \
-                and not iff.orelse
+                iff.body[0], ast.Return) and elem(
+                    iff.body[0].value) == inv['func'] and not iff.orelse
             # the list walked is this name's registration list
             deps = C.FlowDeps(fm)
             okf = okf and deps.reaches(
@@ -899,7 +963,8 @@ def r145(ctx, R):
         'webob.exc.', '') == 'status_map[%s]' % ps[2]
     R.ob('R14.5', '_find_method', okf,
          'a versioned handler runs iff min <= version <= max, otherwise the '
-         'declared status is raised', [src(c) for c in cmpn], func=fm)
+         'declared status is raised', [src(c) for c in cmpn] + [
+             'entry roles %s' % sorted(roles.items())] + why5, func=fm)
     R.count('R14.5', 1, 1)
 
 
